@@ -290,9 +290,10 @@ def main(argv):
             "distinct_nontrivial": len(ntsigs),
             "rule": meta.get("rule", ""),
             "exhaustive": bool(discharged == n_ob and not missing_cover),
-            "explanation": "states = symbolic paths (path-condition classes) explored by CrossHair over the real pDESy source; "
-                           "transitions = SMT queries decided by z3; an obligation is discharged only when its path tree was exhausted "
-                           "with the oracle true on every path (CrossHair 'Confirmed over all paths'); bounds are per cube below",
+            "explanation": "states = symbolic paths (path-condition classes) of the real pDESy source explored by the engine named per cube "
+                           "(zsym, or CrossHair for leaf units); transitions = SMT queries decided by z3; an obligation is discharged only when "
+                           "its path tree was exhausted with the oracle true on every path; bounds are per cube below",
+            "tree_analysed": _tree(),
             "obligations": n_ob,
             "discharged": discharged,
             "inconclusive": inconclusive,
@@ -348,6 +349,15 @@ def main(argv):
           % (prop, tier, n_ob, discharged, verdicts.get("REFUTED", 0), len(inconclusive), total_paths, total_q,
              ev["coverage"]["solver_time_s"], ev["wall_s"], validated, exit_code))
     return exit_code
+
+
+def _tree():
+    try:
+        head = subprocess.run(["git", "-C", chconf.REPO, "rev-parse", "--short", "HEAD"], capture_output=True, text=True).stdout.strip()
+        dirty = subprocess.run(["git", "-C", chconf.REPO, "status", "--porcelain", "--untracked-files=no"], capture_output=True, text=True).stdout.strip()
+        return {"path": chconf.REPO, "head": head, "working_tree_modified": bool(dirty)}
+    except Exception:  # noqa: BLE001
+        return {"path": chconf.REPO}
 
 
 def _z3v():
